@@ -109,6 +109,9 @@ class ConstexprBufferWriter {
   constexpr void WriteElement(std::int16_t value, std::size_t offset) {
     WriteElement(static_cast<std::uint16_t>(value), offset);
   }
+  constexpr void WriteElement(char16_t value, std::size_t offset) {
+    WriteElement(static_cast<std::uint16_t>(value), offset);
+  }
   constexpr void WriteElement(std::uint32_t value, std::size_t offset) {
     buffer_[index_ + offset + 0] = value >> 0;
     buffer_[index_ + offset + 1] = value >> 8;
